@@ -48,9 +48,13 @@ def run(ctx):
     ctx.obligation("oracle on the real tool: with one unprotected dereference no other place is reported", "lone" not in kinds)
     st = PF.stats(allc, allo)
     st["always_nil_dereference_triggers"] = nguard
+    st["programs_with_direct_forwarding"] = sum(1 for c in allc if "'retcall'" in repr(c.prog["funcs"]))
+    st["programs_with_ok_form"] = sum(1 for c in allc if any(fd.get("okform") for fd in c.prog["funcs"]))
+    st["programs_with_named_results"] = sum(1 for c in allc if any(fd.get("named") for fd in c.prog["funcs"]))
+    st["programs_with_sentinel"] = sum(1 for c in allc if c.prog.get("sentinel"))
     st["programs_with_always_safe_deletion"] = sum(1 for c in allc if not allo[c.name]["model"]["nodel"])
     ctx.coverage.update({"evaluations": st["executions"] + st["real_triggers"], "distinct_nontrivial": st["clean_in_real_tool"],
-                         "rule": "generated programs with error-returning functions (returns: value with nil error, nil or value with a fresh error, (nil, nil), forwarding of a callee's error inside its own check) and callers in every check shape (early return on err != nil, use under err == nil, compound conditions, unchecked use, use on the failure path, error overwritten by an assignment or another call before the check, error ignored, copy after the check), 1-3 packages; guarded / lone variants so that clean programs occur; non-trivial = the real tool reports nothing",
+                         "rule": "generated programs with error- and ok-returning functions (spellings: (value, error) and (value, ok bool) incl. tests written as comparisons with true/false; named results with bare returns; a fresh error spelled as errors.New or as a never-reassigned package-level sentinel of this or another package; returns: value with nil error, nil or value with an error, (nil, nil), forwarding of a callee's error inside its own check, direct `return g(args)` forwarding) and callers in every check shape (early return on err != nil, use under err == nil, compound conditions, unchecked use, use on the failure path, error overwritten by an assignment or another call before the check, error ignored, copy after the check), 1-3 packages; guarded / lone variants so that clean programs occur; non-trivial = the real tool reports nothing",
                          "distribution": st})
     for c in allc[:2]:
         ctx.sample(PF.describe(c, allo[c.name])[:1500])
@@ -83,7 +87,7 @@ def run(ctx):
     if not okp and not ctx.violations:
         ctx.violation("proof", "a proof obligation of props/C08.v no longer checks:\n" + common.coq_error_excerpt(log), found_input=False)
     ctx.write_evidence(assumptions=[
-        "partial: (value, ok) results, named results, `return f()` forwarding and error operands whose nil-ness is only known to the engine (package-level sentinels) are outside the model; the always-safe deletion is modelled and compared but the soundness theorem excludes programs in which it removes a trigger (r_nodel)",
+        "partial: the (value, ok) form, named results and the package-level sentinel are spellings of the model's error forms (the printer chooses; the real analysis must produce the same triggers), not separate constructs of the model; a bare return in an ok-returning function (non-constant ok operand) and error operands whose nil-ness only the engine's second phase decides are outside; the always-safe deletion is modelled and compared but the soundness theorem excludes programs in which it removes a trigger (r_nodel)",
         "the soundness theorem is proved for single-package layouts"])
 
 
